@@ -6,6 +6,7 @@ import Mathlib.Algebra.Order.BigOperators.Group.Finset
 import Mathlib.Tactic.Ring
 import Mathlib.Tactic.Linarith
 import Mathlib.Tactic.FieldSimp
+import Mathlib.Tactic.NormNum
 
 /-!
   Real-number lemmas about the least-squares chain of `Model/Kexact.lean`
@@ -600,5 +601,10 @@ theorem lsq_consistent (n : ℕ) (rows : List (List ℝ)) (b z x : List ℝ)
       | false =>
         simp only [Bool.false_eq_true, if_false, Prod.mk.injEq, true_and] at h
         rw [← h, hx']
+
+theorem sqrt25 : Real.sqrt 25 = 5 := by
+  rw [show (25 : ℝ) = 5 * 5 by norm_num]; exact Real.sqrt_mul_self (by norm_num)
+theorem sqrt100 : Real.sqrt 100 = 10 := by
+  rw [show (100 : ℝ) = 10 * 10 by norm_num]; exact Real.sqrt_mul_self (by norm_num)
 
 end Refine.KexactReal
